@@ -796,6 +796,29 @@ func c16(run *ev.Run, tier string) {
 		_ = os.Unsetenv("VERIF_C16_USD")
 		removeWorkDir(edir)
 	}
+	// part 5b: list items are trimmed at their ends and nowhere else: inner runs of
+	// blanks, tabs and line breaks are part of the value, with or without a reference
+	{
+		y := "name: inner\narch: amd64\nversion: 1.0.0\ndepends:\n  - \"  libfoo  (>=  1.2)  \"\n  - \"tab\\there\"\n  - \"two\\nlines\"\n  - \"${VERIF_C16_ITEM}\"\nprovides:\n  - \"a   b\"\nsuggests:\n  - \" x \\t y \"\n"
+		run.Case("list-items-trimmed-at-the-ends-only", true)
+		cfg, err := parseYAML(y, func(k string) string {
+			if k == "VERIF_C16_ITEM" {
+				return " from   env\twith tab "
+			}
+			return ""
+		})
+		if err != nil {
+			run.Violate("C16/list-item/parse-error", map[string]any{"error": err.Error()})
+		} else {
+			want := map[string][]string{"depends": {"libfoo  (>=  1.2)", "tab\there", "two\nlines", "from   env\twith tab"}, "provides": {"a   b"}, "suggests": {"x \t y"}}
+			got := map[string][]string{"depends": cfg.Depends, "provides": cfg.Provides, "suggests": cfg.Suggests}
+			for k, w := range want {
+				if strings.Join(got[k], "\x00") != strings.Join(w, "\x00") {
+					run.Violate("C16/list-item/inner-white-space-changed", map[string]any{"list": k, "got": got[k], "want": w})
+				}
+			}
+		}
+	}
 	// part 6: the command line tool. Values of environment variables arrive whole (an '='
 	// is an ordinary character of a value), and a document read from the standard input
 	// is held to the same strictness as one read from a file
